@@ -7,7 +7,26 @@ import (
 )
 
 // typeName gives a compact stable name of a Go type for heap-array naming.
+// deepUnalias removes type aliases everywhere in a type expression (type Entry = iface.IPFSLogEntry must name one heap).
+func deepUnalias(t types.Type) types.Type {
+	t = types.Unalias(t)
+	switch u := t.(type) {
+	case *types.Pointer:
+		return types.NewPointer(deepUnalias(u.Elem()))
+	case *types.Slice:
+		return types.NewSlice(deepUnalias(u.Elem()))
+	case *types.Array:
+		return types.NewArray(deepUnalias(u.Elem()), u.Len())
+	case *types.Map:
+		return types.NewMap(deepUnalias(u.Key()), deepUnalias(u.Elem()))
+	case *types.Chan:
+		return types.NewChan(u.Dir(), deepUnalias(u.Elem()))
+	}
+	return t
+}
+
 func typeName(t types.Type) string {
+	t = deepUnalias(t)
 	s := types.TypeString(t, func(p *types.Package) string {
 		path := p.Path()
 		if path == modPath {
